@@ -64,6 +64,7 @@ def observe(db, full: bool) -> Tuple[Dict[str, Any], List[str]]:
     obs["membership"] = tuple(mem)
     # strategies handed back
     handed = []
+    stores: List[bool] = []
     for key in sorted(stored):
         start, ends = key
         parent = classdb.get_class(start)
@@ -72,9 +73,14 @@ def observe(db, full: bool) -> Tuple[Dict[str, Any], List[str]]:
         try:
             if key in db.rule_to_strategy:
                 strat = db.rule_to_strategy[key]
+                two_way_store = False
             else:
                 strat = db.eqv_rule_to_strategy[key]
+                two_way_store = True
             rule = strat(parent)
+            if two_way_store and not rule.is_two_way():
+                probs.append(f"strategy handed back from the two-way store for {key} is not two-way: {strat!r}@@eqv_rule_to_strategy")
+            stores.append(two_way_store)
             ne = tuple(sorted(classdb.get_label(c) for c in rule.children if not dw.brute_empty(c)))
             got = (classdb.get_label(rule.comb_class), ne)
         except Exception as e:  # noqa: BLE001
@@ -86,6 +92,7 @@ def observe(db, full: bool) -> Tuple[Dict[str, Any], List[str]]:
     # which strategy is handed back may differ between the two databases when
     # several strategies produce the same key; only its re-application is required
     obs["strategies_handed_back"] = len(handed)
+    obs["two_way_store"] = tuple(stores)
     return obs, probs
 
 
@@ -161,13 +168,13 @@ def configs(tier: str) -> List[Cfg]:
     classes = dw.start_classes("quick")
     if tier == "quick":
         stats_list = [(), ("a", "ab")]
-        packs = ["base", "ver:a,b", "ver:e,a", "verfirst:a,ab", "norm+sym", "inf2", "rfac", "rfac2", "sfac", "oneway+inf1", "onewayexp+inf1", "oneway+inf1+sym"]
+        packs = ["base", "ver:a,b", "ver:e,a", "verfirst:a,ab", "norm+sym", "inf2", "rfac", "rfac2", "sfac", "oneway+inf1", "onewayexp+inf1", "oneway+inf1+sym", "rfac3", "oneway2", "oneway2+inf1"]
         opts = [{}]
     else:
         stats_list = [(), ("a",), ("a", "ab")]
         packs = ["base", "ver:a,b", "ver:e,a", "ver:e", "ver:b,ab", "verfirst:a,ab", "verfirst:e", "norm+sym", "sym", "inf1",
                  "inf2", "inf2r", "rfac", "sfac", "two", "noinit", "dropempty", "ver:a,b+sym", "ver:a+inf2", "ver:a,b+rfac",
-                 "base+iter", "inf1+iter", "ver:a,b+iter", "rfac2", "oneway", "oneway+inf1", "onewayexp+inf1", "oneway+inf1+sym", "oneway+inf2", "oneway+inf1+iter"]
+                 "base+iter", "inf1+iter", "ver:a,b+iter", "rfac2", "oneway", "oneway+inf1", "onewayexp+inf1", "oneway+inf1+sym", "oneway+inf2", "oneway+inf1+iter", "rfac3", "oneway2", "oneway2+inf1", "oneway2+sym"]
         opts = [{}, {"expand_verified": True}]
         classes = classes + [c for c in dw.start_classes("thorough") if c not in classes][:60]
     res = []
